@@ -90,6 +90,7 @@ type mqCall struct {
 	kind    string // block | ext | status
 	size    uint64
 	link    cidlink.Link
+	wireCid cid.Cid // the CID the receiver computes for the operation's block (prefix + data)
 	fired   bool
 	fireAt  int
 	builtAt int
@@ -139,6 +140,12 @@ func (s *mq) Build(w *World) {
 	t := w.Tape
 	drawProfile(w)
 	NewFabric(w)
+	backlog := t.Chance(200)
+	if backlog {
+		// swarm: callers outrun the sender, so that several messages are pending per peer
+		w.Prof.Weights["send"], w.Prof.Weights["yield"], w.Prof.Weights["connect"], w.Prof.Weights["api"] = 1, 1, 1, 40
+		w.Prof.RunToBlock = 0
+	}
 	w.MaxIdle = 30 * time.Second
 	s.subs, s.nBuilt, s.live, s.maxLive, s.conn = map[string]*mqSub{}, map[string]int{}, map[string]int{}, map[string]int{}, map[string]int{}
 	s.active, s.shutAt, s.exitAt = map[string]int{}, map[string][]int{}, map[string][]int{}
@@ -202,10 +209,13 @@ func (s *mq) Build(w *World) {
 	for i := 0; i < ncalls; i++ {
 		c := &mqCall{idx: i, peer: s.peers[t.Draw(npeers)].Name, req: t.Draw(3)}
 		c.kind = []string{"block", "block", "ext", "status", "block", "nothing"}[t.Draw(6)]
+		if bigBlocks && t.Chance(600) {
+			c.kind = "block" // messages fill up: what matters is which message a block lands in
+		}
 		switch c.kind {
 		case "block":
 			c.size = unit * uint64([]int{1, 1, 2, 3}[t.Draw(4)])
-			if bigBlocks && t.Chance(300) {
+			if bigBlocks && t.Chance(500) {
 				c.size = 300 * 1024 // two of these do not fit one message
 			}
 			if !bigBlocks {
@@ -266,7 +276,7 @@ func (s *mq) Build(w *World) {
 		s.script = append(s.script, pp.seq[0])
 		pp.seq = pp.seq[1:]
 	}
-	s.descr = fmt.Sprintf("peers=%d calls=%d retries=%d perPeer=%d conn-script=%v yields=%v", npeers, ncalls, retries, perPeer, s.script, yieldList(w))
+	s.descr = fmt.Sprintf("peers=%d calls=%d retries=%d perPeer=%d backlog=%v conn-script=%v yields=%v", npeers, ncalls, retries, perPeer, backlog, s.script, yieldList(w))
 	w.AddProvider(s.events(w))
 }
 
@@ -381,6 +391,7 @@ func (s *mq) fire(w *World, c *mqCall) {
 				data := make([]byte, c.size)
 				copy(data, []byte(fmt.Sprintf("mq-op-%d", c.idx)))
 				blk, _ := blocks.NewBlockWithCid(data, mustCid(fmt.Sprintf("mq-blk-%d", c.idx)))
+				c.wireCid, _ = blk.Cid().Prefix().Sum(data)
 				b.AddBlock(blk)
 				b.AddLink(sub.req, cidlink.Link{Cid: blk.Cid()}, graphsync.LinkActionPresent)
 			case "ext":
@@ -663,13 +674,24 @@ func (s *mq) finalC17(w *World) *Violation {
 			if hi == 0 {
 				continue
 			}
+			if last > 0 {
+				w.Probe("c17-message-order-compared")
+			}
 			key := fmt.Sprintf("%d-%d", lo, hi)
 			if seen[key] {
 				continue // a retry of the same message
 			}
 			seen[key] = true
 			if lo < last {
-				return &Violation{Property: "C17", Rule: "R3", Signature: "messages-out-of-order", Detail: fmt.Sprintf("peer %s: message %d on the wire carries operation built %d-th after a message carrying the %d-th; %s", p.Name, mi, lo, last, s.descr)}
+				sig := "messages-out-of-order"
+				w.mu.Lock()
+				if s.maxLive[p.Name] > 1 {
+					// two queue instances of the peer were alive at once (the old one still
+					// flushing after its shutdown, and its successor): a recorded finding
+					sig += ":overlapping-queues"
+				}
+				w.mu.Unlock()
+				return &Violation{Property: "C17", Rule: "R3", Signature: sig, Detail: fmt.Sprintf("peer %s: message %d on the wire carries operation built %d-th after a message carrying the %d-th; %s", p.Name, mi, lo, last, s.descr)}
 			}
 			last = hi
 		}
@@ -689,9 +711,8 @@ func (s *mq) hadConn(name string) bool {
 // inMessage: does the wire message carry the operation (its block, or its request's extension/status)?
 func (s *mq) inMessage(wm *WireMsg, c *mqCall) bool {
 	if c.kind == "block" {
-		want := mustCid(fmt.Sprintf("mq-blk-%d", c.idx))
 		for _, b := range wm.Msg.Blocks() {
-			if b.Cid().Equals(want) {
+			if b.Cid().Equals(c.wireCid) {
 				return true
 			}
 		}
